@@ -123,7 +123,9 @@ PropC15v(e) == e.ev = "asciivar" =>
            fits(n) == Cmp(v.lo, OfSmall(n)) <= 0 /\ (~v.hasHi \/ Cmp(OfSmall(n), v.hi) <= 0) IN
        /\ P(e.printed, <<>>)!ParseText.msgs = P(e.text, <<>>)!ParseText.msgs        \* printed back
        /\ \A i \in 1..Len(e.fills) : LET f == e.fills[i] IN
-             /\ f.refused = ~fits(f.len)                                             \* enforced when filled
+             \* enforced when filled (a fill-in value of a Go type that is not documented - the bytes of a string - may be
+             \* refused whatever its length; if it is taken, it is taken like the string)
+             /\ IF "foreign" \in DOMAIN f THEN f.refused \/ fits(f.len) ELSE f.refused = ~fits(f.len)
              /\ ~f.refused => NormJ(f.item) = [f |-> "L", e |-> <<[f |-> "A", s |-> [k \in 1..f.len |-> 120]]>>
                                                \o (IF e.viaell THEN <<[f |-> "A", s |-> [k \in 1..e.otherlen |-> 120]]>> ELSE <<>>)]
 
